@@ -28,7 +28,7 @@ SOFT_MONITORS = ['getInsertionIndex.keeps_sorted']      # contracts on private h
 CASE_LIMIT_S = 60.0
 
 OPS = ["sort", "insert", "insert_chain", "extract", "span", "add", "mod_int", "mod_pattern", "gt", "lt",
-       "remove_list", "remove_one", "pop", "history", "history", "slice", "sort_radix", "remove_ends", "derived_edit"]
+       "remove_list", "remove_one", "pop", "history", "history", "slice", "sort_radix", "remove_ends", "derived_edit", "aliased_removal"]
 
 BASES = [gen.ms_from_fields(2021, 6, 15, 12, 0, 0, 0),
          gen.ms_from_fields(2019, 12, 31, 23, 59, 58, 0),     # year end
@@ -606,6 +606,51 @@ def run_case(case, ctx):
                     J.fail("right operand of + was modified by a feature created on the sum", got=lst2)
                     break
             J.outcomes.add(kd)
+
+    elif op == "aliased_removal":
+        # derived tracks in which the SAME observation object sits at several positions (a closed loop made by
+        # a + a.extract(0,0), a lap repeated by a + a, a + a % 2): removal by index designates positions, not objects
+        if n == 0:
+            return ood("no observation to remove on an empty track", cls)
+        for shape in ("close_loop", "twice", "plus_every_other"):
+            for pick in range(3):
+                a_ = T()
+                if shape == "close_loop":
+                    tr = M.call(lambda: a_ + a_.extract(0, 0))
+                elif shape == "twice":
+                    tr = M.call(lambda: a_ + a_)
+                else:
+                    tr = M.call(lambda: a_ + (a_ % 2))
+                if M.is_raised(tr):
+                    J.fail("building the derived track raised", args={"shape": shape}, raised=tr)
+                    break
+                objs = list(tr.getObsList())
+                m = len(objs)
+                if pick == 0:
+                    idx = [0]
+                    r = M.call(tr.removeFirstObs)
+                elif pick == 1:
+                    idx = [m - 1]
+                    r = M.call(tr.popObs, m - 1)
+                else:
+                    idx = sorted(set([rng.randrange(m), rng.randrange(m)]))
+                    r = M.call(tr.removeObsList, list(idx))
+                ctx.monitor("model.ids")
+                if M.is_raised(r):
+                    J.fail("removal raised on a track holding the same observation object twice",
+                           args={"shape": shape, "indices": idx}, raised=r)
+                    break
+                exp = [id(o) for k, o in enumerate(objs) if k not in set(idx)]
+                got = [id(o) for o in tr.getObsList()]
+                if got != exp:
+                    J.fail("removal by index on a track holding the same observation object at several positions did "
+                           "not leave exactly the other positions", args={"shape": shape, "indices": idx},
+                           got_positions=[objs.index(o) if o in objs else None for o in tr.getObsList()],
+                           expected_size=len(exp), got_size=len(got))
+                    break
+                J.outcomes.add((shape, tuple(idx)))
+            if J.problem:
+                break
 
     elif op == "history":
         # call histories: list mutations of every kind interleaved with sort() and chronological insertion
